@@ -22,10 +22,11 @@ let txhist : (int * int, txrec) Hashtbl.t = Hashtbl.create 64
 (* implementation state per server as dumped after the previous operation *)
 type isl = { i_id : int; i_tries : int; i_exp : int; i_h : string }
 let impl_prev : (int, int * int * isl list) Hashtbl.t = Hashtbl.create 8
+let impl_prev_cl : (int, (int * string) list) Hashtbl.t = Hashtbl.create 8
 let pending_reset : (int, unit) Hashtbl.t = Hashtbl.create 8
 
 let reset () =
-  Hashtbl.reset txhist; Hashtbl.reset impl_prev; Hashtbl.reset pending_reset;
+  Hashtbl.reset txhist; Hashtbl.reset impl_prev; Hashtbl.reset pending_reset; Hashtbl.reset impl_prev_cl;
   options := opt_default; clients := []; servers := []; realms := []; st := None; Hashtbl.reset display; diverged := false
 
 let b01 s = (s = "1")
@@ -200,6 +201,67 @@ let rw_touches_hidden (rw : rewrite option) : bool =
 let impl_events (impl_all : string list list) (kind : string) : string list list =
   List.filter_map (function k :: rest when k = kind -> Some rest | _ -> None) impl_all
 
+let parse_impl_srv (toks : string list) : (int * (int * int * isl list)) option =
+  match toks with
+  | sv :: rest ->
+      let k = kv rest in
+      let slots = List.filter_map (fun e -> match String.split_on_char ':' e with
+          | id :: tries :: exp :: h :: _ -> Some { i_id = int_of_string id; i_tries = int_of_string tries; i_exp = int_of_string exp; i_h = h }
+          | _ -> None) (String.split_on_char ',' (get k "slots" "")) in
+      (try Some (int_of_string sv, (int_of_string (get k "lost" "0"), int_of_string (get k "mode" "0"), slots)) with _ -> None)
+  | [] -> None
+
+let parse_impl_cl (toks : string list) : (int * (int * string) list) option =
+  match toks with
+  | c :: rest ->
+      let k = kv rest in
+      let cache = List.filter_map (fun e -> match String.split_on_char ':' e with
+          | id :: h :: _ -> (try Some (int_of_string id, h) with _ -> None)
+          | _ -> None) (String.split_on_char ',' (get k "cache" "")) in
+      (try Some (int_of_string c, cache) with _ -> None)
+  | [] -> None
+
+(* C11 on the implementation's own observations: the packet put in slot i carries identifier i; with
+   status-server enabled slot 0 holds Status-Server probes and nothing else; the cursor stays in the table *)
+let check_slots opidx impl_all =
+  List.iter (function
+      | [ sv; id; p ] ->
+          let idb = if String.length p >= 4 then int_of_string ("0x" ^ String.sub p 2 2) else -1 in
+          spec opidx "C11_wire_id" (idb = int_of_string id) (Printf.sprintf "server %s slot %s carries identifier %d" sv id idb);
+          let mode = List.find_map (fun t -> match parse_impl_srv t with Some (s', (_, m, _)) when s' = int_of_string sv -> Some m | _ -> None)
+              (impl_events impl_all "srv") in
+          let isprobe = String.length p >= 2 && String.sub p 0 2 = "0c" in
+          (match mode with
+           | Some m when m <> 0 ->
+               spec opidx "C11_id0_reserved" ((int_of_string id = 0) = isprobe) (Printf.sprintf "server %s mode %d slot %s code %s" sv m id (String.sub p 0 2))
+           | _ -> ())
+      | _ -> ()) (impl_events impl_all "enq");
+  List.iter (fun t -> match t with
+      | sv :: rest ->
+          let nx = try int_of_string (get (kv rest) "next" "0") with _ -> 0 in
+          spec opidx "C11_cursor_in_table" (nx >= 0 && nx <= int_of_n Consts.coq_MAX_REQUESTS) (Printf.sprintf "server %s next=%d" sv nx)
+      | [] -> ()) (impl_events impl_all "srv")
+
+(* C11 at a client request: the only outstanding requests that may leave their slots are this client's own
+   (the one superseded, and those whose cache entry expired and is purged); everything else stays where it was *)
+let check_no_displace opidx impl_all c (_pkt : n list) =
+  let allowed = match Hashtbl.find_opt impl_prev_cl c with Some cache -> List.map snd cache | None -> [] in
+  List.iter (fun t -> match parse_impl_srv t with
+      | Some (sv, (_, _, post)) ->
+          (match Hashtbl.find_opt impl_prev sv with
+           | Some (_, _, pre) ->
+               List.iter (fun sl ->
+                   if not (List.exists (fun q -> q.i_id = sl.i_id && q.i_h = sl.i_h) post) then
+                     spec opidx "C11_no_displace" (List.mem sl.i_h allowed)
+                       (Printf.sprintf "server %d slot %d held %s, now %s" sv sl.i_id sl.i_h
+                          (match List.find_opt (fun q -> q.i_id = sl.i_id) post with Some q -> q.i_h | None -> "empty"))) pre
+           | None -> ())
+      | None -> ()) (impl_events impl_all "srv")
+
+let remember_impl impl_all =
+  List.iter (fun t -> match parse_impl_cl t with Some (c, x) -> Hashtbl.replace impl_prev_cl c x | None -> ()) (impl_events impl_all "cl");
+  List.iter (fun t -> match parse_impl_srv t with Some (sv, x) -> Hashtbl.replace impl_prev sv x | None -> ()) (impl_events impl_all "srv")
+
 let note_enq impl_all =
   List.iter (function [ sv; id; p ] ->
       Hashtbl.replace txhist (int_of_string sv, int_of_string id) { tx_bytes = p; tx_times = []; tx_resets = 0; tx_after_reset = false }
@@ -236,6 +298,7 @@ let op_cpkt opidx impl_all toks =
        List.iter (function [ cl; p ] -> check_reply_out opidx (int_of_string cl) (bytes_of_hex p) reqauth reqid | _ -> ()) (impl_events impl_all "reply");
        List.iter (function [ sv; _; p ] -> check_request_out opidx (int_of_string sv) (bytes_of_hex p) | _ -> ()) (impl_events impl_all "enq"));
       note_enq impl_all;
+      check_no_displace opidx impl_all c (bytes_of_hex pkt);
       let rq = { rq_created = z_of_int (int_of_string now); rq_refcount = n_of_int 1; rq_buf = Some (bytes_of_hex pkt); rq_replybuf = None;
                  rq_msg = None; rq_from = Some (nat_of_int c); rq_to = None; rq_origuser = None; rq_rqid = N0;
                  rq_rqauth = repeat N0 16; rq_newid = N0 } in
@@ -329,19 +392,6 @@ let op_sreply opidx impl_all toks =
       do_reply opidx impl_all s srv (int_of_string now) (bytes_of_hex rnd) pl
   | _ -> ()
 
-let parse_impl_srv (toks : string list) : (int * (int * int * isl list)) option =
-  match toks with
-  | sv :: rest ->
-      let k = kv rest in
-      let slots = List.filter_map (fun e -> match String.split_on_char ':' e with
-          | id :: tries :: exp :: h :: _ -> Some { i_id = int_of_string id; i_tries = int_of_string tries; i_exp = int_of_string exp; i_h = h }
-          | _ -> None) (String.split_on_char ',' (get k "slots" "")) in
-      (try Some (int_of_string sv, (int_of_string (get k "lost" "0"), int_of_string (get k "mode" "0"), slots)) with _ -> None)
-  | [] -> None
-
-let remember_impl impl_all =
-  List.iter (fun t -> match parse_impl_srv t with Some (sv, x) -> Hashtbl.replace impl_prev sv x | None -> ()) (impl_events impl_all "srv")
-
 (* what one pass of the implementation's writer did to its own table: loss accounting per status-server mode,
    and re-transmission of everything outstanding after a connection reset (C12) *)
 let check_writer_pass opidx impl_all srv putfail =
@@ -424,6 +474,15 @@ let op_srvset opidx toks =
       st := Some s; print_state opidx s
   | _ -> ()
 
+let op_cursor opidx toks =
+  match toks with
+  | [ srv; n ] ->
+      let s = get_state () in
+      let i = nat_of_int (int_of_string srv) in
+      let s = set_server s i (set_nextid (get_server s i) (n_of_int (int_of_string n))) in
+      st := Some s; print_state opidx s
+  | _ -> ()
+
 let run_op (opidx : int) (impl_all : string list list) (toks : string list) : bool =
   match toks with
   | "cpkt" :: r -> op_cpkt opidx impl_all r; true
@@ -433,8 +492,10 @@ let run_op (opidx : int) (impl_all : string list list) (toks : string list) : bo
   | "drain" :: r -> op_drain opidx r; true
   | "reconnect" :: r -> op_reconnect opidx r; true
   | "srvset" :: r -> op_srvset opidx r; true
+  | "cursor" :: r -> op_cursor opidx r; true
   | _ -> false
 
 let run (opidx : int) (impl_all : string list list) (toks : string list) : bool =
   let r = run_op opidx impl_all toks in
+  if r then check_slots opidx impl_all;
   remember_impl impl_all; r
